@@ -19,8 +19,10 @@ EXTENDS Integers, Sequences, FiniteSets, SequencesExt, TLC
 CONSTANTS Levels,    \* 1 or 2: with 2 only the level-2 expressions are roots (level 1 has its own configuration)
           MaxLen,    \* inputs: all strings over {a, b} up to this length
           ExcOps,    \* TRUE: include must / try_catch_return_false
-          Stride,    \* only every Stride-th root (1: all), offset by Offset: a seeded sample of the level-2 space
+          Stride,    \* only every Stride-th expression (1: all), starting at Offset < Stride: a seeded sample of the space
           Offset,
+          Wide,      \* TRUE: the wider operator set (partial, star_partial, rep, rep_opt, until, if_must, opt_must, if_then_else,
+                     \*       enable, disable, raise, try_catch_raise_nested) in addition to the core one
           AllCfgs    \* TRUE: apply mode x rewind mode x 5 action families x 2 controls; FALSE: rewind mode x {none, bool apply}
 
 VARIABLES w, cfg,                        \* the run: input, configuration incl. root (fixed in Init)
@@ -31,26 +33,59 @@ VARIABLES w, cfg,                        \* the run: input, configuration incl. 
 vars == <<w, cfg, fr, cur, ret, exc, q, done, stk, cs, lastx, verd, cnt, n, ended>>
 
 Unary  == {"star", "plus", "opt", "at", "not_at"} \cup (IF ExcOps THEN {"must", "try_catch_return_false"} ELSE {})
-Binary == {"seq", "sor"}
+          \cup (IF Wide THEN {"partial", "star_partial", "rep", "rep_opt", "enable", "disable"} ELSE {})
+          \cup (IF Wide /\ ExcOps THEN {"try_catch_raise_nested"} ELSE {})
+Binary == {"seq", "sor"} \cup (IF Wide THEN {"until"} ELSE {})      \* if_must / opt_must: see Apps
+Ternary == IF Wide THEN {"if_then_else"} ELSE {}
 AK == 16 + 2 * 256 + 3 * 4096 + 4 * 65536 + 5 * 1048576 + 6 * 16777216 + 7 * 268435456      \* family f -> action kind f
 
-NodeRec(id, op, kids, p) ==
-   [id |-> id, op |-> op, kids |-> kids, p |-> p, iop |-> op, ikids |-> kids, ip |-> p, en |-> 1, vid |-> id, ak |-> AK,
+NodeRec(id, op, kids, p, iop, ikids, en) ==
+   [id |-> id, op |-> op, kids |-> kids, p |-> p, iop |-> iop, ikids |-> ikids, ip |-> p, en |-> en, vid |-> id, ak |-> IF en = 1 THEN AK ELSE 0,     \* nobody attaches actions to internal rules
+   
     sel |-> 0, lim |-> 0, sw |-> 0, named |-> 0, s |-> "", dn |-> "n", name |-> "n", hasmsg |-> 0, emsg |-> "", thas |-> 0, tmsg |-> "",
     prop |-> "C01"]
 AtomSpecs == <<<<"any", <<>>>>, <<"one", <<97>>>>, <<"string", <<97, 98>>>>, <<"eof", <<>>>>, <<"success", <<>>>>, <<"failure", <<>>>>>>
+             \o (IF Wide /\ ExcOps THEN <<<<"raise", <<2>>>>>> ELSE <<>>)          \* raise< one< 'a' > >
 NA == Len(AtomSpecs)
-\* operator applications over the nodes 1..m, as <<op, kids>>
-Apps(m) == SetToSeq({<<u, <<i>>>> : u \in Unary, i \in 1..m} \cup {<<b, <<i, j>>>> : b \in Binary, i \in 1..m, j \in 1..m})
-L1 == Apps(NA)
-A2 == IF Levels >= 2 THEN Apps(NA + Len(L1)) ELSE <<>>
-L2 == SelectSeq(A2, LAMBDA a : \E i \in 1..Len(a[2]) : a[2][i] > NA)      \* at least one operand of level 1
-PP(op) == IF op = "try_catch_return_false" THEN <<1>> ELSE <<>>
+\* internal rules the implementation calls without the user having written them: must< R > (disabled control) for if_must / opt_must
+NI == IF Wide /\ ExcOps THEN NA ELSE 0
+MustOf(j) == NA + j
+\* operator applications over the operand set S, as <<op, kids>>
+Apps(S) == SetToSeq({<<u, <<i>>>> : u \in Unary, i \in S} \cup {<<b, <<i, j>>>> : b \in Binary, i \in S, j \in S}
+                    \cup {<<b, <<i, j>>>> : b \in IF Wide /\ ExcOps THEN {"if_must", "opt_must"} ELSE {}, i \in S, j \in 1..NA}
+                    \cup {<<t, <<i, j, k>>>> : t \in Ternary, i \in S, j \in S, k \in S})
+L1 == Apps(1..NA)
+B1 == NA + NI                       \* level-1 nodes are B1 + 1 .. B1 + Len(L1)
+\* level 2: operators over atoms and level-1 expressions.  The space is large (wide: ~1.5 million expressions), so the
+\* table holds only the sampled ones: expression number x of a fixed enumeration for x = Offset, Offset + Stride, ...
+\* (Stride = 1: all of them).  Ternary operators stay at level 1.
+UnarySeq  == SetToSeq(Unary)
+BinarySeq == SetToSeq(Binary)
+IMSeq     == IF Wide /\ ExcOps THEN <<"if_must", "opt_must">> ELSE <<>>
+S2 == [i \in 1..(NA + Len(L1)) |-> IF i <= NA THEN i ELSE B1 + (i - NA)]       \* operand ids
+n2 == Len(S2)
+U2 == Len(UnarySeq) * n2
+B2 == Len(BinarySeq) * n2 * n2
+T2 == U2 + B2 + Len(IMSeq) * n2 * NA
+Decode(x) ==
+   IF x < U2 THEN <<UnarySeq[(x \div n2) + 1], <<S2[(x % n2) + 1]>>>>
+   ELSE IF x < U2 + B2
+   THEN LET y == x - U2 IN <<BinarySeq[(y \div (n2 * n2)) + 1], <<S2[((y \div n2) % n2) + 1], S2[(y % n2) + 1]>>>>
+   ELSE LET y == x - U2 - B2 IN <<IMSeq[(y \div (n2 * NA)) + 1], <<S2[((y \div NA) % n2) + 1], (y % NA) + 1>>>>
+K2 == IF Levels >= 2 /\ Offset < T2 THEN ((T2 - 1 - Offset) \div Stride) + 1 ELSE 0
+L2 == [k \in 1..K2 |-> Decode(Offset + (k - 1) * Stride)]
+\* parameters: try_catch*: the caught class (1 parse_error_base) [and the rule whose raise_nested is called]; rep / rep_opt: the count
+PP(op, kids) == IF op = "try_catch_return_false" THEN <<1>> ELSE IF op = "try_catch_raise_nested" THEN <<1, kids[1]>>
+                ELSE IF op \in {"rep", "rep_opt"} THEN <<2>> ELSE <<>>
+\* implementation view: if_must< C, R > = subs_t< C, must< R > >
+IK(op, kids) == IF op \in {"if_must", "opt_must"} THEN <<kids[1], MustOf(kids[2])>> ELSE kids
+App(id, a) == NodeRec(id, a[1], a[2], PP(a[1], a[2]), a[1], IK(a[1], a[2]), 1)
 GNodes ==
-   [i \in 1..(NA + Len(L1) + Len(L2)) |->
-      IF i <= NA THEN NodeRec(i, AtomSpecs[i][1], <<>>, AtomSpecs[i][2])
-      ELSE IF i <= NA + Len(L1) THEN NodeRec(i, L1[i - NA][1], L1[i - NA][2], PP(L1[i - NA][1]))
-      ELSE NodeRec(i, L2[i - NA - Len(L1)][1], L2[i - NA - Len(L1)][2], PP(L2[i - NA - Len(L1)][1]))]
+   [i \in 1..(B1 + Len(L1) + Len(L2)) |->
+      IF i <= NA THEN NodeRec(i, AtomSpecs[i][1], <<>>, AtomSpecs[i][2], AtomSpecs[i][1], <<>>, 1)
+      ELSE IF i <= B1 THEN NodeRec(i, "must", <<i - NA>>, <<>>, "must", <<i - NA>>, 0)
+      ELSE IF i <= B1 + Len(L1) THEN App(i, L1[i - B1])
+      ELSE App(i, L2[i - B1 - Len(L1)])]
 
 Inputs == UNION {[1..m -> {97, 98}] : m \in 0..MaxLen}
 
@@ -61,11 +96,18 @@ D == INSTANCE PegDen WITH Nodes <- GNodes, W <- w
 DenCtx == [A |-> cfg.A, lim |-> Len(w), fam |-> cfg.af, vis |-> IF cfg.cf \in {3, 4} THEN 1 ELSE 0, eol |-> 3, ib |-> 0, il |-> 1, ic |-> 1, dep |-> 0]
 Fuel == 10
 
+\* The documented expansions of if_then_else and until mention the condition twice, once under not_at (actions
+\* disabled): with an action that vetoes the condition the expansion and the rule legitimately differ (the formalism
+\* knows no actions), so such runs are left to the recorded-run checks with non-vetoing families.
+RECURSIVE HasDup(_)
+HasDup(g) == GNodes[g].op \in {"if_then_else", "until"} \/ \E i \in 1..Len(GNodes[g].kids) : HasDup(GNodes[g].kids[i])
+
 Init ==
    /\ w \in Inputs
-   /\ \E g \in {r \in (IF Levels >= 2 THEN (NA + Len(L1) + 1)..Len(GNodes) ELSE 1..Len(GNodes)) : r % Stride = Offset % Stride},
+   /\ \E g \in (IF Levels >= 2 THEN (B1 + Len(L1) + 1)..Len(GNodes) ELSE {r \in 1..Len(GNodes) : r % Stride = Offset % Stride}),
          A \in (IF AllCfgs THEN {0, 1} ELSE {1}), MM \in {0, 1}, af \in (IF AllCfgs THEN 0..7 ELSE {0, 3}), cf \in (IF AllCfgs THEN {2, 4} ELSE {4}) :
          cfg = [g |-> g, A |-> A, M |-> MM, af |-> af, cf |-> cf, eol |-> 3, ib |-> 0, il |-> 1, ic |-> 1]
+   /\ ~(cfg.A = 1 /\ cfg.af \in {3, 4} /\ HasDup(cfg.g))
    \* grammars that loop without progress on this input are C11's business
    /\ D!Den(cfg.g, 0, DenCtx, Fuel).k # "L"
    /\ M!MInit
@@ -76,10 +118,10 @@ Init ==
 
 EndEvent ==
    [k |-> "end", v |-> done, b |-> cur, l |-> 1, c |-> 1 + cur, o |-> cur, e |-> Len(w), d |-> -1,
-    x |-> IF done = 2 THEN exc.cls ELSE 0, nested |-> 0,
+    x |-> IF done = 2 THEN exc.cls ELSE 0, nested |-> IF done = 2 THEN exc.n ELSE 0,
     pb |-> IF done = 2 THEN exc.at ELSE -1, pl |-> IF done = 2 THEN 1 ELSE -1, pc |-> IF done = 2 THEN 1 + exc.at ELSE -1,
-    src |-> "src", msg |-> IF done = 2 THEN C!MsgOf(exc.who, 0) ELSE "",
-    what |-> IF done = 2 THEN "src:1:" \o ToString(1 + exc.at) \o ": " \o C!MsgOf(exc.who, 0) ELSE "", acc |-> 0]
+    src |-> "src", msg |-> IF done = 2 THEN C!MsgOf(exc.who, exc.m) ELSE "",
+    what |-> IF done = 2 THEN "src:1:" \o ToString(1 + exc.at) \o ": " \o C!MsgOf(exc.who, exc.m) ELSE "", acc |-> 0]
 
 Next ==
    \/ /\ q # <<>>                                           \* the observer consumes the oldest event
